@@ -123,7 +123,11 @@ def component_struct(types, sm, ports):
     """The encapsulee as an instrumented mock component."""
     name = sm['enc'][-1]
     out = [f'struct {name} : public dzn::component {{',
-           '  dzn::meta dzn_meta;', '  dzn::runtime& dzn_runtime;', '  const dzn::locator& dzn_locator;']
+           '  dzn::meta dzn_meta;', '  dzn::runtime& dzn_runtime;', '  const dzn::locator& dzn_locator;',
+           # a port of the component that the shell does not expose (as an injected port would be):
+           # only the component's own check_bindings() can notice that its event is unbound
+           '  dzn::port::meta vf_inner_meta{{"vf_inner", nullptr, nullptr, nullptr}, {"", nullptr, nullptr, nullptr}};',
+           '  std::function<void()> vf_inner_event;']
     live = [p for p in ports if not p['injected']]
     for p in live:
         out.append(f'  {cxx_fqn(p["itf"]["fqn"])} {p["name"]};')
@@ -140,6 +144,7 @@ def component_struct(types, sm, ports):
     out.append('    : ' + '\n    , '.join(inits))
     out.append('  {')
     out.append('    vf::S().component = this;')
+    out.append('    if (vf::S().skip_binding != "vf_inner") vf_inner_event = [] {};')
     out.append('    vf::S().comp_locator = &loc;')
     out.append('    for (auto& kv : loc.services) vf::S().comp_services.push_back(kv.first.first + "|" + kv.first.second);')
     out.append('    vf::S().comp_pump = loc.try_get<dzn::pump>();')
@@ -156,6 +161,7 @@ def component_struct(types, sm, ports):
             out.append(f'    if (vf::S().skip_binding != "{key}") {p["name"]}.{own_dir}.{ev["name"]} = {body};')
     out.append('  }')
     out.append('  void check_bindings() const {')
+    out.append('    if (!vf_inner_event) throw dzn::binding_error(vf_inner_meta, "in.vf_inner_event");')
     for p in live:
         out.append(f'    {p["name"]}.check_bindings();')
     out.append('  }')
